@@ -1011,6 +1011,11 @@ func (g *txnGen) genWrites(off int64, n int, isInsert bool) []wr {
 			}
 		}
 		v := col.RandVal(w.rng, w.prof.Long)
+		if merge && w.prof.ForceSorted && col.K.Stringy() && w.rng.Chance(30) {
+			// a merge whose result can equal what an absent cell holds (the empty string): the row
+			// gains a value without its bytes changing
+			v = Val{W: -1, B: []byte{}}
+		}
 		x := wr{col: col, merge: merge, val: v}
 		kind := "put"
 		if merge {
